@@ -83,10 +83,10 @@ func (o *Obs) ViolateProp(prop, sig, format string, a ...interface{}) {
 
 // Env is what a worker gives to a case.
 type Env struct {
-	Dir  string // private scratch directory of this worker (cwd, TMPDIR, HOME)
-	Race bool   // running in the -race build
-	Tier string
-	Self string // path of this binary
+	Dir         string // private scratch directory of this worker (cwd, TMPDIR, HOME)
+	Race        bool   // running in the -race build
+	Tier        string
+	Self        string // path of this binary
 	WrglBin     string
 	WrglBinRace string
 }
@@ -111,7 +111,7 @@ type Property struct {
 
 var registry = map[string]*Property{}
 
-func Register(p *Property) { registry[p.ID] = p }
+func Register(p *Property)    { registry[p.ID] = p }
 func Get(id string) *Property { return registry[id] }
 func IDs() []string {
 	var ids []string
